@@ -535,6 +535,85 @@ def clone_keep(expr, keep):
     return C().visit(expr)
 
 
+def _literal(e):
+    if isinstance(e, ast.Constant):
+        return True
+    if isinstance(e, (ast.Name, ast.Attribute)):
+        return isinstance(e, ast.Name) and e.id.isupper()      # module constants
+    if isinstance(e, (ast.Tuple, ast.List)):
+        return all(_literal(x) for x in e.elts)
+    return False
+
+
+def _continue_to_else(stmts):
+    """in a loop body: `if c: A; continue` followed by R is `if c: A else: R`"""
+    out = []
+    for i, st in enumerate(stmts):
+        if isinstance(st, ast.If) and not st.orelse and st.body and \
+                isinstance(st.body[-1], ast.Continue) and not any(
+                    isinstance(n, (ast.For, ast.While)) for b in st.body
+                    for n in ast.walk(b)):
+            rest = _continue_to_else(list(stmts[i + 1:]))
+            new = ast.copy_location(ast.If(test=st.test, body=st.body[:-1] or [ast.Pass()],
+                                           orelse=rest), st)
+            ast.fix_missing_locations(new)
+            out.append(new)
+            return out
+        out.append(st)
+    return out
+
+
+def _unroll_const_loops(block):
+    """`for t in (<2..4 literal items>): body` without break/continue/else is
+    the body once per item, with the target bound to the item"""
+    changed = False
+    j = 0
+    while j < len(block):
+        st = block[j]
+        if isinstance(st, ast.For) and not st.orelse and \
+                isinstance(st.iter, (ast.Tuple, ast.List)) and 2 <= len(st.iter.elts) <= 4 \
+                and all(_literal(e) and not isinstance(e, ast.Starred)
+                        for e in st.iter.elts):
+            body = _continue_to_else([clone(b) for b in st.body])
+            if any(isinstance(n, (ast.Break, ast.Continue))
+                   for b in body for n in ast.walk(b)):
+                j += 1
+                continue
+            out = []
+            for e in st.iter.elts:
+                bind = ast.copy_location(ast.Assign(targets=[clone(st.target)],
+                                                    value=clone(e), type_comment=None), st)
+                out.append(bind)
+                out += [clone(b) for b in body]
+            for s_ in out:
+                ast.fix_missing_locations(s_)
+            block[j:j + 1] = out
+            j += len(out)
+            changed = True
+            continue
+        j += 1
+    return changed
+
+
+class _SetAttr(ast.NodeTransformer):
+    """setattr(x, 'name', v) as a statement is `x.name = v` (sympath resolves
+    the name first, so this is applied to resolved statements as well)"""
+    changed = False
+
+    def visit_Expr(self, node):
+        c = node.value
+        if isinstance(c, ast.Call) and isinstance(c.func, ast.Name) and \
+                c.func.id == 'setattr' and len(c.args) == 3 and not c.keywords and \
+                isinstance(c.args[1], ast.Constant) and isinstance(c.args[1].value, str) \
+                and c.args[1].value.isidentifier():
+            self.changed = True
+            return ast.copy_location(ast.Assign(
+                targets=[ast.Attribute(value=c.args[0], attr=c.args[1].value,
+                                       ctx=ast.Store())],
+                value=c.args[2], type_comment=None), node)
+        return node
+
+
 def _is_const(e, v):
     return isinstance(e, ast.Constant) and e.value is v
 
@@ -986,6 +1065,8 @@ def normalize(func):
                         round_changed = True
                     if _split_ifexp_stmts(blk):
                         round_changed = True
+                    if _unroll_const_loops(blk):
+                        round_changed = True
                     if _any_all(blk, lambda i, blk=blk: _reads_after(new, blk, i)):
                         round_changed = True
                     if _fold_block(blk, lambda i, blk=blk: _reads_after(new, blk, i)):
@@ -1014,6 +1095,11 @@ def normalize(func):
             new.body[k] = pz.visit(st)
         if pz.changed:
             changed = True
+    sa = _SetAttr()
+    for k, st in enumerate(new.body):
+        new.body[k] = sa.visit(st)
+    if sa.changed:
+        changed = True
     sp = _Spell()
     for k, st in enumerate(new.body):
         new.body[k] = sp.visit(st)
